@@ -371,10 +371,11 @@ class _NFA:
     nom's take_while / multispace / alphanumeric / many-of-one_of consume a maximal run and never give characters back, so the text after
     such a run cannot start with a character of the class (maximal munch)."""
 
-    def __init__(self):
+    def __init__(self, munch=True):
         self.eps = []
         self.tr = []
         self.forbid = {}
+        self.munch = munch
 
     def new(self):
         self.eps.append([])
@@ -410,7 +411,7 @@ class _NFA:
             self.eps[s] += [s2, t]
             self.eps[t2] += [s2, t]
             S = _class_only(r[1])
-            if S is not None:
+            if S is not None and self.munch:
                 self.forbid[t] = classes_of(S)
             return s, t
         raise ValueError(k)
@@ -463,8 +464,9 @@ def _show_char(c):
     return {"\n": "\\n", "\t": "\\t", "\r": "\\r"}.get(ch, ch if 32 <= c < 127 else "\\x%02x" % c)
 
 
-def equivalent(r1, r2, limit=200000):
-    """(True, stats) or (False, witness, accepted_by_first, stats): a shortest text in exactly one of the two languages"""
+def equivalent(r1, r2, limit=200000, munch=True):
+    """(True, stats) or (False, witness, accepted_by_first, stats): a shortest text in exactly one of the two languages.
+    munch=True models greedy, non-backtracking character-class runs (nom); munch=False is the plain regular reading (regex crate)."""
     sets = set()
     _syms(r1, sets)
     _syms(r2, sets)
@@ -486,7 +488,7 @@ def equivalent(r1, r2, limit=200000):
 
     def classes_of(s):
         return frozenset(idx[c] for c in s)
-    n1, n2 = _NFA(), _NFA()
+    n1, n2 = _NFA(munch), _NFA(munch)
     s1, t1 = n1.build(r1, classes_of)
     s2, t2 = n2.build(r2, classes_of)
     a, b = n1.closure({(s1, frozenset())}), n2.closure({(s2, frozenset())})
